@@ -44,6 +44,9 @@ type File struct {
 	Note  string
 	Opts  string // extra plug-in parameters (specialname=…)
 	Only  string // "" both runtimes, "google" or "gogo"
+	// SingleFileOnly: not expanded with filepermessage=true (the per-message file names of this schema collide,
+	// which is the recorded G-naming finding of the `samename` file; one instance of it is enough)
+	SingleFileOnly bool
 }
 
 type fb struct {
@@ -314,6 +317,23 @@ func Corpus(goPkgBase string, thorough bool) []*File {
 		b.NestedType = append(b.NestedType, bi)
 		f.field(b, "i", 1, "message", lOpt, "", f.full("B.Inner"))
 		add(f, false, "two nested messages with the same short name")
+	}
+	// --- the same, proto2, where only the first of the two has a required field
+	{
+		f := newFile("samenamereq", "proto2", goPkgBase)
+		a := f.msg("Request")
+		ai := &descriptorpb.DescriptorProto{Name: proto.String("Options")}
+		f.field(ai, "x", 1, "int32", lReq, "", "")
+		a.NestedType = append(a.NestedType, ai)
+		f.field(a, "o", 1, "message", lOpt, "", f.full("Request.Options"))
+		b := f.msg("Response")
+		bi := &descriptorpb.DescriptorProto{Name: proto.String("Options")}
+		f.field(bi, "y", 1, "string", lOpt, "", "")
+		b.NestedType = append(b.NestedType, bi)
+		f.field(b, "o", 1, "message", lOpt, "", f.full("Response.Options"))
+		top := f.msg("Top")
+		f.field(top, "t", 1, "int32", lReq, "", "")
+		add(f, false, "two nested messages with the same short name, only the first has a required field").SingleFileOnly = true
 	}
 	// --- imports: another corpus package and a well-known type
 	{
